@@ -1,11 +1,11 @@
 """deliberate breakages of quimb/tensor/decomp.py that the C05 contracts must catch (see vf/selftest.py).
 
 Format: (relpath, function_suffix, old_text, new_text, "expect-fail" | "benign").  This file brings its own runner
-(``run_mutant``): the generic ``_trim_and_renorm_svd_result`` fails 14 (cutoff mode, renorm) cases on the *unchanged* tree
-(known finding 6a), so its mutants are judged on the cases that are clean there (renorm = 0, and renorm equal to the power
-of the cutoff mode) -- a mutant counts as caught only through an obligation that the unchanged tree discharges.  A
-function_suffix may carry "@<substring>" to select other cases by name ("@" alone: all cases); the two "fix-6a" entries
-use it to check that a corrected generic implementation discharges every case, including the 14 that fail today.
+(``run_mutant``).  The generic ``_trim_and_renorm_svd_result`` has 24 (cutoff mode, renorm) cases (25 s): its mutants are run
+on the 10 cases with renorm = 0 or renorm equal to the power of the cutoff mode unless the function_suffix carries
+"@<substring>" selecting cases by name ("@" alone: all cases).  Findings 6a / 6b are fixed in /repo; the reverts of both
+fixes are expect-fail mutants here.  "::fdx" mutants import the mutated file as a module of its own and evaluate the fdx
+provider on it (caught = a provider obligation fails that the unchanged tree discharges).
 """
 import os
 
@@ -16,9 +16,12 @@ KEEP, RENORM, TRIMN, TRIMG, ABS, ABSN = ("::_compute_number_svals_to_keep_numba"
                                          "::_do_absorb", "::_do_absorb_numba")
 FDX = "::fdx"
 
-_FIX_OLD = "            norm = (tot / csp[n_chi - 1]) ** (1 / pow)\n"
-_FIX_NEW = ("            crp = xp.cumsum(sabs**renorm, axis=-1)\n"
-            "            norm = (crp[..., -1:] / crp[n_chi - 1]) ** (1 / renorm)\n")
+# the corrected renormalisation of the generic function (fix of finding 6a) and the defective text it replaced
+_FIXED = ("            crp = xp.cumsum(sabs**renorm, axis=-1)\n"
+          "            norm = (crp[..., -1:] / crp[..., n_chi - 1 : n_chi]) ** (\n"
+          "                1 / renorm\n"
+          "            )\n")
+_DEFECT_6A = "            norm = (tot / csp[n_chi - 1]) ** (1 / pow)\n"
 
 MUTANTS = [
     # ---- _compute_number_svals_to_keep_numba
@@ -79,10 +82,12 @@ MUTANTS = [
     (D, TRIMG, "            n_chi = xp.count_nonzero(sabs > cutoff * sabs[..., 0:1], axis=-1)", "            n_chi = xp.count_nonzero(sabs > cutoff, axis=-1)", "expect-fail"),
     (D, TRIMG, "        # no truncation\n        info[\"error\"] = 0.0", "        # no truncation\n        info[\"error\"] = 1.0", "expect-fail"),
     (D, TRIMG, "    return _do_absorb(U, s, VH, absorb=absorb, xp=xp)", "    return _do_absorb(U, sabs, VH, absorb=absorb, xp=xp)", "expect-fail"),
-    # a corrected generic implementation (renormalise with `renorm`, as the accelerated one) discharges *every* case,
-    # including the 14 that fail on the unchanged tree; and breaking the corrected version is caught again
-    (D, TRIMG + "@", _FIX_OLD, _FIX_NEW, "benign"),
-    (D, TRIMG + "@renorm=2", _FIX_OLD, _FIX_NEW.replace("(1 / renorm)", "(1 / pow)"), "expect-fail"),
+    # reverting the fix of finding 6a (renormalise with the cutoff mode's power again) must fail: `renorm-factor` in the
+    # cases whose renorm differs from the mode's power, UnboundLocalError for abs / rel with renorm > 0  ("@": all cases)
+    (D, TRIMG + "@", _FIXED, _DEFECT_6A, "expect-fail"),
+    (D, TRIMG + "@renorm=2", _FIXED, _FIXED.replace("1 / renorm", "1 / pow"), "expect-fail"),
+    (D, TRIMG + "@renorm=", _FIXED, _FIXED.replace("n_chi - 1 : n_chi", "n_chi : n_chi + 1"), "expect-fail"),
+    (D, TRIMG + "@renorm=1", _FIXED, _FIXED.replace("crp[..., -1:] /", "crp[..., 0:1] /"), "expect-fail"),
     # ---- _do_absorb
     (D, ABS, "        return rdmul(U, sq), None, ldmul(sq, VH)", "        return rdmul(U, s), None, ldmul(sq, VH)", "expect-fail"),
     (D, ABS, "        return U, None, ldmul(s, VH)", "        return U, None, VH", "expect-fail"),
@@ -112,7 +117,10 @@ MUTANTS = [
     (D, FDX, "    get_Us: get_sVH,\n", "    get_Us: get_Us,\n", "expect-fail"),
     (D, FDX, "_RETURNS_LEFT_ABSORBS = {\n    get_U_s_VH,\n    get_Usq,", "_RETURNS_LEFT_ABSORBS = {\n    get_U_s_VH,\n    get_VH,", "expect-fail"),
     (D, FDX, "    truncation = (max_bond > 0) or (cutoff > 0.0)", "    truncation = (max_bond > 0) or (cutoff >= 0.0)", "benign"),  # 'auto' then always resolves to svd: still total
-    (D, FDX, "                if renorm is True:\n", "                if renorm is True or renorm == 1:\n", "benign"),  # (a 'fix' of 6b that changes the meaning of renorm=1: no *new* failure)
+    # reverting the fix of finding 6b (typed=True makes the argument types part of the cache key) must fail memo-key[param=renorm]
+    (D, FDX, "@functools.lru_cache(maxsize=None, typed=True)\ndef parse_split_opts(", "@functools.cache\ndef parse_split_opts(", "expect-fail"),
+    (D, FDX, "@functools.lru_cache(maxsize=None, typed=True)\ndef parse_split_opts(", "@functools.lru_cache(maxsize=None, typed=False)\ndef parse_split_opts(", "expect-fail"),
+    (D, FDX, "@functools.cache\ndef parse_split_left_right_isom(", "@functools.lru_cache(maxsize=None, typed=True)\ndef parse_split_left_right_isom(", "benign"),
 ]
 
 
